@@ -234,8 +234,23 @@ fn add_foreign(d: &mut Dir, r: &mut StdRng, sc: &Scenario, idx: usize, newest_ra
 /// Orders the directory by rank and makes sure the mtimes agree with that order: strictly
 /// increasing, old / fresh classes at least 30 s away from the keep age.  Returns the listing
 /// with each file's age in whole seconds.
-fn stamp(d: &mut Dir, r: &mut StdRng, sc: &Scenario) -> (Vec<Value>, bool) {
+fn stamp(d: &mut Dir, r: &mut StdRng, sc: &Scenario, tie: bool) -> (Vec<Value>, bool) {
     let list = d.listing();
+    if tie {
+        // every file gets the SAME mtime: what a coarse file-system clock (4 ms on this kernel) does to files that were
+        // written in quick succession
+        let t = SystemTime::now() - Duration::from_secs(5);
+        let mut out = vec![];
+        for (name, _, mut desc, _) in list {
+            set_mtime(&d.dir.join(&name), t);
+            let m = desc.as_object_mut().unwrap();
+            m.insert("ageS".into(), json!(5));
+            m.insert("new".into(), json!(false));
+            out.push(desc);
+        }
+        d.fresh_foreign.clear();
+        return (out, true);
+    }
     let now = SystemTime::now();
     let n = list.len();
     let ancient = |rank: u128| rank < 1_000_000;
@@ -290,7 +305,10 @@ fn run_scenario(sid: u64, seed: u64, thorough: bool, root: &Path) -> Events {
     let w = *[65536u64, 65536, 131_072, 1_048_576].choose(&mut r).unwrap();
     let ratio = *[2u64, 4, 7, 20].choose(&mut r).unwrap(); // halves: 1x, 2x, 3.5x, 10x
     let age_mode = sid % 9 == 0;
-    let sc = Scenario {
+    // "ties": a first run writes one big event per file in quick succession; before the restart every file gets the same
+    // mtime and the keep size is lowered, so that the start-up trim has to choose among files it cannot order
+    let tie_mode = !age_mode && sid % 11 == 5;
+    let mut sc = Scenario {
         w,
         k: w * ratio / 2,
         keep_age: if r.gen_bool(0.5) { 3600 } else { 0 },
@@ -307,6 +325,9 @@ fn run_scenario(sid: u64, seed: u64, thorough: bool, root: &Path) -> Events {
         restarts: if age_mode { 0 } else { r.gen_range(0..4) },
         age_mode,
     };
+    if tie_mode {
+        sc = Scenario { w: 65536, k: 655_360, keep_age: 0, write_age_ms: 86_400_000, nevents: 24, restarts: 1, age_mode: false };
+    }
     let dir = root.join(format!("lw_{sid}"));
     let _ = std::fs::remove_dir_all(&dir);
     std::fs::create_dir_all(&dir).unwrap();
@@ -318,19 +339,23 @@ fn run_scenario(sid: u64, seed: u64, thorough: bool, root: &Path) -> Events {
     std::fs::create_dir_all(dir.join("app.log.dir")).unwrap();
     d.decoys.push(dir.join("app.log.dir"));
     let prefix = dir.join("app.log");
-    let nforeign = r.gen_range(0..6);
+    let nforeign = if tie_mode { 0 } else { r.gen_range(0..6) };
     for i in 0..nforeign {
         add_foreign(&mut d, &mut r, &sc, i, 0);
     }
     let big_bias = r.gen_bool(0.3);
     // restart points
-    let mut restart_at: Vec<u64> = (0..sc.restarts).map(|_| r.gen_range(0..=sc.nevents)).collect();
+    let mut restart_at: Vec<u64> = if tie_mode { vec![14] } else { (0..sc.restarts).map(|_| r.gen_range(0..=sc.nevents)).collect() };
     restart_at.sort_unstable();
     let mut seq: u64 = 0;
     let mut nforeign_total = nforeign;
     'run: loop {
         // ---- (re)start
-        let (listing, restamped) = stamp(&mut d, &mut r, &sc);
+        let tie_now = tie_mode && seq > 0;
+        if tie_now {
+            sc.k = sc.w * *[4u64, 7].choose(&mut r).unwrap() / 2; // the operator lowers the keep size: 2x or 3.5x
+        }
+        let (listing, restamped) = stamp(&mut d, &mut r, &sc, tie_now);
         let before: Vec<String> = d.names();
         let t0 = ms(t_origin);
         let res = start_writer(&sc, &prefix);
@@ -350,7 +375,7 @@ fn run_scenario(sid: u64, seed: u64, thorough: bool, root: &Path) -> Events {
             "Start".into(),
             json!({"w":sc.w,"k":sc.k,"keepAge":sc.keep_age,"writeAgeMs":sc.write_age_ms,"dir":listing,"restamped":restamped,
                    "ok":res.is_ok(),"err":res.as_ref().err().cloned().unwrap_or_default(),"startLen":start_len,"files":files,
-                   "t0":t0,"t1":t1,"decoysOk":d.decoys_ok(),"created":new_names.len(),"afterCrash":false,"seq0":0}),
+                   "t0":t0,"t1":t1,"decoysOk":d.decoys_ok(),"created":new_names.len(),"afterCrash":false,"seq0":0,"ties":tie_now}),
         ));
         let Ok(sender) = res else { break 'run };
         // ---- batches until the next restart point or the end
@@ -365,7 +390,8 @@ fn run_scenario(sid: u64, seed: u64, thorough: bool, root: &Path) -> Events {
             let t0 = ms(t_origin);
             for _ in 0..nb {
                 seq += 1;
-                let (ev, size) = make_event(seq, event_pad(&mut r, big_bias));
+                let pad = if tie_mode { r.gen_range(52_000..60_000) } else { event_pad(&mut r, big_bias) };
+                let (ev, size) = make_event(seq, pad);
                 sizes.push(size);
                 if sender.send(ev).is_err() {
                     send_ok = false;
@@ -402,7 +428,7 @@ fn run_scenario(sid: u64, seed: u64, thorough: bool, root: &Path) -> Events {
         }
         restart_at.remove(0);
         // something else may leave a file with the prefix while the writer is down
-        if r.gen_bool(0.3) {
+        if !tie_mode && r.gen_bool(0.3) {
             let newest = d.listing().last().map_or(0, |x| x.1);
             add_foreign(&mut d, &mut r, &sc, nforeign_total, newest);
             nforeign_total += 1;
@@ -504,7 +530,7 @@ pub fn run_crash(args: &Args, mut out: Out) {
             next_seq = max_seq + 1;
         }
         // ---- a writer in this process on the same directory
-        let (listing, restamped) = stamp(&mut d, &mut r, &sc);
+        let (listing, restamped) = stamp(&mut d, &mut r, &sc, false);
         let t0 = ms(t_origin);
         let res = start_writer(&sc, &dir.join("app.log"));
         let t1 = ms(t_origin);
@@ -512,7 +538,7 @@ pub fn run_crash(args: &Args, mut out: Out) {
         let files = d.files_json();
         out.ev(sid, "Start", json!({"w":sc.w,"k":sc.k,"keepAge":0,"writeAgeMs":sc.write_age_ms,"dir":listing,"restamped":restamped,
                                     "ok":res.is_ok(),"err":res.as_ref().err().cloned().unwrap_or_default(),"startLen":start_len,"files":files,
-                                    "t0":t0,"t1":t1,"decoysOk":true,"created":1,"afterCrash":true,"seq0":next_seq - 1}));
+                                    "t0":t0,"t1":t1,"decoysOk":true,"created":1,"afterCrash":true,"seq0":next_seq - 1,"ties":false}));
         let Ok(sender) = res else { continue };
         let mut seq = next_seq - 1;
         let until = seq + sc.nevents;
